@@ -28,6 +28,7 @@
 
 #include <dispenso/platform.h>
 #include <dispenso/util.h>
+#include <dispenso/detail/verif_hooks.h>
 
 namespace dispenso {
 
@@ -210,16 +211,20 @@ class SPSCRingBuffer {
    * @endcode
    */
   bool try_push(T&& item) {
+    DISPENSO_VERIF_POINT("spsc.push.tail_load", &tail_);
     const size_t currentTail = tail_.load(std::memory_order_relaxed);
     const size_t nextTail = increment(currentTail);
 
     // Check if buffer is full
+    DISPENSO_VERIF_POINT("spsc.push.head_load", &head_);
     if (nextTail == head_.load(std::memory_order_acquire)) {
       return false;
     }
 
     // Construct element in-place
+    DISPENSO_VERIF_POINT("spsc.push.data_write", elementAt(currentTail));
     new (elementAt(currentTail)) T(std::move(item));
+    DISPENSO_VERIF_POINT("spsc.push.tail_store", &tail_);
     tail_.store(nextTail, std::memory_order_release);
     return true;
   }
@@ -239,16 +244,20 @@ class SPSCRingBuffer {
    * @note Prefer try_push(T&&) when the source element is no longer needed.
    */
   bool try_push(const T& item) {
+    DISPENSO_VERIF_POINT("spsc.push.tail_load", &tail_);
     const size_t currentTail = tail_.load(std::memory_order_relaxed);
     const size_t nextTail = increment(currentTail);
 
     // Check if buffer is full
+    DISPENSO_VERIF_POINT("spsc.push.head_load", &head_);
     if (nextTail == head_.load(std::memory_order_acquire)) {
       return false;
     }
 
     // Construct element in-place via copy
+    DISPENSO_VERIF_POINT("spsc.push.data_write", elementAt(currentTail));
     new (elementAt(currentTail)) T(item);
+    DISPENSO_VERIF_POINT("spsc.push.tail_store", &tail_);
     tail_.store(nextTail, std::memory_order_release);
     return true;
   }
@@ -276,16 +285,20 @@ class SPSCRingBuffer {
    */
   template <typename... Args>
   bool try_emplace(Args&&... args) {
+    DISPENSO_VERIF_POINT("spsc.push.tail_load", &tail_);
     const size_t currentTail = tail_.load(std::memory_order_relaxed);
     const size_t nextTail = increment(currentTail);
 
     // Check if buffer is full
+    DISPENSO_VERIF_POINT("spsc.push.head_load", &head_);
     if (nextTail == head_.load(std::memory_order_acquire)) {
       return false;
     }
 
     // Construct element in-place
+    DISPENSO_VERIF_POINT("spsc.push.data_write", elementAt(currentTail));
     new (elementAt(currentTail)) T(std::forward<Args>(args)...);
+    DISPENSO_VERIF_POINT("spsc.push.tail_store", &tail_);
     tail_.store(nextTail, std::memory_order_release);
     return true;
   }
@@ -315,16 +328,20 @@ class SPSCRingBuffer {
    * @endcode
    */
   bool try_pop(T& item) {
+    DISPENSO_VERIF_POINT("spsc.pop.head_load", &head_);
     const size_t currentHead = head_.load(std::memory_order_relaxed);
 
     // Check if buffer is empty
+    DISPENSO_VERIF_POINT("spsc.pop.tail_load", &tail_);
     if (currentHead == tail_.load(std::memory_order_acquire)) {
       return false;
     }
 
+    DISPENSO_VERIF_POINT("spsc.pop.data_read", elementAt(currentHead));
     T* elem = elementAt(currentHead);
     item = std::move(*elem);
     elem->~T();
+    DISPENSO_VERIF_POINT("spsc.pop.head_store", &head_);
     head_.store(increment(currentHead), std::memory_order_release);
     return true;
   }
@@ -356,16 +373,20 @@ class SPSCRingBuffer {
    * @endcode
    */
   OpResult<T> try_pop() {
+    DISPENSO_VERIF_POINT("spsc.pop.head_load", &head_);
     const size_t currentHead = head_.load(std::memory_order_relaxed);
 
     // Check if buffer is empty
+    DISPENSO_VERIF_POINT("spsc.pop.tail_load", &tail_);
     if (currentHead == tail_.load(std::memory_order_acquire)) {
       return {};
     }
 
+    DISPENSO_VERIF_POINT("spsc.pop.data_read", elementAt(currentHead));
     T* elem = elementAt(currentHead);
     OpResult<T> result(std::move(*elem));
     elem->~T();
+    DISPENSO_VERIF_POINT("spsc.pop.head_store", &head_);
     head_.store(increment(currentHead), std::memory_order_release);
     return result;
   }
@@ -396,16 +417,20 @@ class SPSCRingBuffer {
    * @endcode
    */
   bool try_pop_into(T* storage) {
+    DISPENSO_VERIF_POINT("spsc.pop.head_load", &head_);
     const size_t currentHead = head_.load(std::memory_order_relaxed);
 
     // Check if buffer is empty
+    DISPENSO_VERIF_POINT("spsc.pop.tail_load", &tail_);
     if (currentHead == tail_.load(std::memory_order_acquire)) {
       return false;
     }
 
+    DISPENSO_VERIF_POINT("spsc.pop.data_read", elementAt(currentHead));
     T* elem = elementAt(currentHead);
     new (storage) T(std::move(*elem));
     elem->~T();
+    DISPENSO_VERIF_POINT("spsc.pop.head_store", &head_);
     head_.store(increment(currentHead), std::memory_order_release);
     return true;
   }
@@ -436,7 +461,9 @@ class SPSCRingBuffer {
    */
   template <typename InputIt>
   size_type try_push_batch(InputIt first, InputIt last) {
+    DISPENSO_VERIF_POINT("spsc.pushb.tail_load", &tail_);
     const size_t currentTail = tail_.load(std::memory_order_relaxed);
+    DISPENSO_VERIF_POINT("spsc.pushb.head_load", &head_);
     const size_t currentHead = head_.load(std::memory_order_acquire);
 
     // Calculate available space (actual capacity is kBufferSize - 1)
@@ -457,11 +484,13 @@ class SPSCRingBuffer {
     size_t count = 0;
     size_t tailPos = currentTail;
     for (; first != last && count < available; ++first, ++count) {
+      DISPENSO_VERIF_POINT("spsc.pushb.data_write", elementAt(tailPos));
       new (elementAt(tailPos)) T(std::move(*first));
       tailPos = increment(tailPos);
     }
 
     if (count > 0) {
+      DISPENSO_VERIF_POINT("spsc.pushb.tail_store", &tail_);
       tail_.store(tailPos, std::memory_order_release);
     }
     return count;
@@ -494,7 +523,9 @@ class SPSCRingBuffer {
    */
   template <typename OutputIt>
   size_type try_pop_batch(OutputIt dest, size_type maxCount) {
+    DISPENSO_VERIF_POINT("spsc.popb.head_load", &head_);
     const size_t currentHead = head_.load(std::memory_order_relaxed);
+    DISPENSO_VERIF_POINT("spsc.popb.tail_load", &tail_);
     const size_t currentTail = tail_.load(std::memory_order_acquire);
 
     // Calculate available items
@@ -513,6 +544,7 @@ class SPSCRingBuffer {
     size_t count = std::min(available, maxCount);
     size_t headPos = currentHead;
     for (size_t i = 0; i < count; ++i, ++dest) {
+      DISPENSO_VERIF_POINT("spsc.popb.data_read", elementAt(headPos));
       T* elem = elementAt(headPos);
       *dest = std::move(*elem);
       elem->~T();
@@ -520,6 +552,7 @@ class SPSCRingBuffer {
     }
 
     if (count > 0) {
+      DISPENSO_VERIF_POINT("spsc.popb.head_store", &head_);
       head_.store(headPos, std::memory_order_release);
     }
     return count;
@@ -537,6 +570,7 @@ class SPSCRingBuffer {
    * @note Safe to call from any thread, but the result is only a hint.
    */
   bool empty() const {
+    DISPENSO_VERIF_POINT("spsc.empty.loads", this);
     return head_.load(std::memory_order_acquire) == tail_.load(std::memory_order_acquire);
   }
 
@@ -552,6 +586,7 @@ class SPSCRingBuffer {
    * @note Safe to call from any thread, but the result is only a hint.
    */
   bool full() const {
+    DISPENSO_VERIF_POINT("spsc.full.loads", this);
     return increment(tail_.load(std::memory_order_acquire)) ==
         head_.load(std::memory_order_acquire);
   }
@@ -570,7 +605,9 @@ class SPSCRingBuffer {
    *       arithmetic.
    */
   size_type size() const {
+    DISPENSO_VERIF_POINT("spsc.size.head_load", &head_);
     const size_t head = head_.load(std::memory_order_acquire);
+    DISPENSO_VERIF_POINT("spsc.size.tail_load", &tail_);
     const size_t tail = tail_.load(std::memory_order_acquire);
     // Handle wrap-around: if tail < head, we've wrapped
     return (tail >= head) ? (tail - head) : (kBufferSize - head + tail);
